@@ -203,11 +203,11 @@ pub fn lu_decomp_complex(ar: &mut Matrix, ai: &mut Matrix, ip: &mut [usize]) -> 
     for k in 0..nm1 {
         let kp1 = k + 1;
 
-        // Find pivot - largest magnitude complex number
+        // Find pivot - largest modulus (compared through its square), so that no multiplier exceeds 1 in modulus
         let mut m = k;
-        let mut max_val = ar[(k, k)].abs() + ai[(k, k)].abs();
+        let mut max_val = ar[(k, k)] * ar[(k, k)] + ai[(k, k)] * ai[(k, k)];
         for i in kp1..n {
-            let val = ar[(i, k)].abs() + ai[(i, k)].abs();
+            let val = ar[(i, k)] * ar[(i, k)] + ai[(i, k)] * ai[(i, k)];
             if val > max_val {
                 max_val = val;
                 m = i;
